@@ -59,9 +59,17 @@ def eff_simple(c):
     return (lb, ub, ext)
 
 
+def op_value(scn, op):
+    """the value an operation is about: BuildVal sessions check op.val, others the session value"""
+    for o in scn["plan"]:
+        if o.get("a") == "BuildVal":
+            return o["val"]
+    return scn["val"]
+
+
 def any_leaf(pred):
     def f(M, scn, op, ev):
-        return any(pred(t, v) for t, v in leaves(M, {"k": "REF", "n": scn["ty"]}, scn["val"]))
+        return any(pred(t, v) for t, v in leaves(M, {"k": "REF", "n": scn["ty"]}, op_value(scn, op)))
     return f
 
 
@@ -244,7 +252,26 @@ def _int_wide(t, v):
     return e is not None and any(b not in (None, "?") and not -2 ** 31 <= b < 2 ** 31 for b in e[:2])
 
 
+def _int_ulong32_above(t, v):
+    if t["k"] != "INTEGER":
+        return False
+    e = eff_simple(t["c"])
+    return e is not None and e[0] not in (None, "?") and e[0] >= 0 and e[1] not in (None, "?") and 2 ** 31 <= e[1] < 2 ** 32 \
+        and big_to_int(v) > e[1]
+
+
+def _toplevel_listof_size_violated(M, scn, op, ev):
+    t = M.resolve({"k": "REF", "n": scn["ty"]})
+    if t["k"] not in ("SEQOF", "SETOF"):
+        return False
+    e = eff_simple(t["size"])
+    v = op_value(scn, op)
+    return e is not None and "?" not in e[:2] and not ((e[0] or 0) <= len(v) and (e[1] is None or len(v) <= e[1]))
+
+
 PREDS = {
+    "int_ulong32_above": any_leaf(_int_ulong32_above),
+    "toplevel_listof_size_violated": _toplevel_listof_size_violated,
     "bxer_trailing_lf": _bxer_trailing_lf,
     "int_wide": any_leaf(_int_wide),
     "bits_named_bit_treatment": any_leaf(_bits_named_bit_treatment),
